@@ -245,4 +245,36 @@ example : hidden [88, 73] Tok.tok_fre.spelling = true := by decide +kernel
 example : hidden [65, 66] Tok.tok_step.spelling = true ∧ needsGuard [65, 66] .tok_step = true := by
   decide +kernel
 
+/-! ### the adjacency rule as it is in the source, against the grammar
+
+What a shortened name runs into, when the next PRINT item follows with nothing in between, is the FIRST TERMINAL of that
+item — not its node kind: `TAN(X)*2` is a `binary_aexpr` that begins with the letters `TAN`.  `printItemKinds`
+(regenerated from tree-sitter-applesoft's `grammar.json`: every visible alternative of `_expr`, with "its first character
+may be a letter" computed from FIRST sets) and the rule extracted from `needs_guard` (`adjacentGuardsAllBut` /
+`adjacentKindList`) are compared here. -/
+
+/-- does the adjacency rule of the current source guard a following node of this kind? -/
+def adjacentGuards (kind : List Nat) : Bool :=
+  if adjacentGuardsAllBut then !([116, 111, 107, 95].isPrefixOf kind) && !adjacentKindList.contains kind
+  else adjacentKindList.contains kind
+
+/-- **The guard covers every item that can begin with a letter**: for every node kind that can be a PRINT item and whose
+first terminal may start with a letter (function call, string function call, `NOT …`, variables, and the BINARY
+expressions whose left-most leaf is one of these), the rule of `needs_guard` for an item that follows with nothing in
+between asks for a guard.  Fails when the rule is narrowed to a list of node kinds that forgets a composite kind. -/
+theorem guard_table_complete :
+    (printItemKinds.all fun k => !k.2 || adjacentGuards k.1) = true ∧
+    (printItemKinds.any fun k => k.2 && k.1 == [98, 105, 110, 97, 114, 121, 95, 97, 101, 120, 112, 114]) = true := by
+  decide +kernel
+
+/-- the model's rule (`needsGuardNode … (.node true) = true`: every adjacent non-token, non-subscript node) is the rule
+of the current source -/
+theorem adjacent_rule_current_tree :
+    adjacentGuardsAllBut = true ∧ adjacentKindList = [[115, 117, 98, 115, 99, 114, 105, 112, 116]] := by
+  decide
+
+/-- the narrowed rule of the seeded change (`fcall`, `sfcall`, `unary_aexpr` only) leaves `binary_aexpr` unguarded -/
+example : ([[102, 99, 97, 108, 108], [115, 102, 99, 97, 108, 108], [117, 110, 97, 114, 121, 95, 97, 101, 120, 112, 114]] : List (List Nat)).contains
+    [98, 105, 110, 97, 114, 121, 95, 97, 101, 120, 112, 114] = false := by decide
+
 end A2Verif.C17
